@@ -241,9 +241,19 @@ func RunC15(rep *explore.Report, tier string) {
 	if tier != "thorough" {
 		// redaction does not depend on bet sizes: the quick tier explores the same
 		// configurations with threshold amount classes instead of every integer
+		var small []*Config
 		for _, c := range grid {
 			c.Amounts = "classes"
+			var sum int64
+			for _, b := range c.Bankroll {
+				sum += b
+			}
+			if c.Seats() >= 4 && sum > 14 {
+				continue // explored in the thorough tier
+			}
+			small = append(small, c)
 		}
+		grid = small
 	}
 	RunGrid(rep, grid, Visitors["C15"], GridOpts{Property: "C15", MaxState: 3000000})
 	rep.Set("distinct_nontrivial", rep.Get("views_checked"))
